@@ -1,4 +1,5 @@
-import JjModel.Lemmas.FilesCollect
+import JjModel.Lemmas.FilesIdentity
+import JjModel.Props.C03
 /-!
   C04 — File content merge obeys the merge identity laws.
 
@@ -45,7 +46,144 @@ theorem merge_shape_hunks (terms : List Bytes) (level : HunkLevel) (sc : SameCha
   · left; simpa using h1
   · right; exact h2
 
+/-! ### identity laws -/
+
+/-- **`SlicesRespectEquality`** for the line diff that `merge_inner` computes: in every hunk, inputs
+with equal contents have equal slices.  (Decidable; the driver evaluates it on every request of the
+correspondence run and the harness treats a `0` as a disagreement.  It holds because two equal
+non-base inputs are diffed against the base by the same function, and the base diffed against an
+equal input matches token by token — `diff_self_diagonal`, not proved here.) -/
+def SlicesRespectEquality (terms : List Bytes) : Prop := lineDiffSre terms = true
+
+instance (terms : List Bytes) : Decidable (SlicesRespectEquality terms) := by
+  unfold SlicesRespectEquality; infer_instance
+
+theorem sreb_spec (d : ContentDiff) (h : sreb d = true) :
+    ∀ hk ∈ d.hunks, ∀ i j, i < d.inputs.length → j < d.inputs.length →
+      d.inputs.getD i [] = d.inputs.getD j [] → hk.2.getD i [] = hk.2.getD j [] := by
+  intro hk hmem i j hi hj he
+  simp only [sreb, List.all_eq_true, List.mem_range] at h
+  have := h hk hmem i hi j hj
+  simp only [he, if_true, decide_eq_true_eq] at this
+  exact this
+
+theorem mem_of_count_ne_zero (vs : List Bytes) (v : Bytes) (h : count vs v ≠ 0) : v ∈ vs := by
+  by_cases hm : v ∈ vs
+  · exact hm
+  · rw [count_eq_scount, scount_not_mem vs 1 v hm] at h; exact absurd rfl h
+
+/-- **Identity law (relative to `SlicesRespectEquality`).**  If the sides and bases of a file merge
+cancel pairwise — in the precise sense of C02: `trivial_merge` applied to the whole contents
+resolves to `v` (every base cancels an equal side and one side `v` is left; or, with the
+same-change rule, the remaining sides all equal `v` against one remaining base value) — then the
+content merge returns exactly `v`, at both hunk levels.
+Proof: every diff hunk's contents are the image of the inputs under one function (by
+`SlicesRespectEquality`), `trivial_merge` commutes with functions (`trivialMerge_map`), matching hunks
+carry equal contents (C03 `matching_equal`), and the resolved slices concatenate back to `v` (C03
+`diff_hunks_reconstruct`). -/
+theorem merge_cancels_to_side_partial (terms : List Bytes) (hodd : terms.length % 2 = 1)
+    (level : HunkLevel) (sc : SameChange) (v : Bytes) (hv : trivialMerge terms sc = some v)
+    (hsre : SlicesRespectEquality terms) : tryMerge terms level sc = some v := by
+  obtain ⟨hlen1, hlen⟩ := length_removes_adds terms hodd
+  have hne : diffInputs terms ≠ [] := by
+    intro h; have := congrArg List.length h; simp only [diffInputs, List.length_nil] at this; omega
+  obtain ⟨d, hd⟩ := C03.build_isSome (diffInputs terms) (.line, .exact) [] hne
+  have hd' : build (diffInputs terms) byLine = some d := hd
+  obtain ⟨e, w⟩ := build_wf _ _ d hd'
+  have hs : sreb d = true := by
+    have := hsre; unfold SlicesRespectEquality lineDiffSre at this; rw [hd'] at this; exact this
+  have hsre' := sreb_spec d hs
+  rw [e] at hsre'
+  -- the surviving side occurs among the diff inputs
+  have hvm : v ∈ diffInputs terms := by
+    have := (C02.trivial_merge_spec terms hodd sc v).mp hv
+    have hc : count terms v ≠ 0 := by
+      rcases this with ⟨h1, _⟩ | ⟨_, h1, _⟩
+      · exact h1
+      · omega
+    exact mem_removes_adds terms v (mem_of_count_ne_zero terms v hc)
+  have hq := firstIdx_spec v (diffInputs terms) hvm
+  have hqlt : firstIdx v (diffInputs terms) < (diffInputs terms).length := (List.getElem?_eq_some_iff.mp hq).1
+  have h0 : 0 < (diffInputs terms).length := by omega
+  -- every hunk resolves to the slice of the surviving side
+  have hres : resolveDiffHunks d.hunks (removes terms).length sc =
+      d.hunks.map fun hk => [hk.2.getD (firstIdx v (diffInputs terms)) []] := by
+    unfold resolveDiffHunks
+    apply List.map_congr_left
+    intro hk hmem
+    have hkl : hk.2.length = (diffInputs terms).length := by
+      simp only [ContentDiff.hunks, List.mem_map] at hmem
+      obtain ⟨hr, hrm, rfl⟩ := hmem
+      have := C03.hunks_arity d (by rw [e]; exact w) hr hrm
+      simp [List.length_zipWith, this, e]
+    cases hkind : hk.1 with
+    | matching =>
+      simp only
+      have := C03.matching_equal .exact (diffInputs terms) byLine (by simp [byLine, Compare.le]) d hd' hk hmem
+        hkind 0 (firstIdx v (diffInputs terms)) h0 hqlt
+      simp only [Compare.eq, Compare.norm] at this
+      rw [of_decide_eq_true this]
+    | different =>
+      simp only
+      rw [resolve_different terms hodd sc v hv hk.2 hkl (hsre' hk hmem)]
+  have hline : resolvedHunks byLine terms sc =
+      d.hunks.map fun hk => [hk.2.getD (firstIdx v (diffInputs terms)) []] := by
+    unfold resolvedHunks; rw [hd']; exact hres
+  have hinner : mergeInnerHunks terms level sc =
+      d.hunks.map fun hk => [hk.2.getD (firstIdx v (diffInputs terms)) []] := by
+    unfold mergeInnerHunks
+    cases level with
+    | line => exact hline
+    | word =>
+      simp only [hline, List.map_map]
+      apply List.map_congr_left
+      intro hk _
+      simp [mergeHunkByWord]
+  unfold tryMerge
+  rw [hinner, collectResolved_singletons]
+  have hrec := C03.diff_hunks_reconstruct (diffInputs terms) byLine d hd' (firstIdx v (diffInputs terms)) hqlt
+  rw [hrec]
+  simp [List.getD, hq]
+
+/-- … and then `merge` is the resolved merge of `v` and `merge_hunks` is `Resolved(v)`. -/
+theorem merge_cancels_to_side_all_partial (terms : List Bytes) (hodd : terms.length % 2 = 1)
+    (level : HunkLevel) (sc : SameChange) (v : Bytes) (hv : trivialMerge terms sc = some v)
+    (hsre : SlicesRespectEquality terms) :
+    merge terms level sc = some [v] ∧ mergeHunks terms level sc = .resolved v := by
+  have h := merge_cancels_to_side_partial terms hodd level sc v hv hsre
+  exact ⟨(try_merge_iff_merge terms level sc v).mp h, (try_merge_iff_merge_hunks terms level sc v).mp h⟩
+
+/-- `merge [a, b, b] = a`: a side equal to the base leaves the other side (rebasing onto an
+unchanged base is a no-op). -/
+theorem merge_abb_partial (a b : Bytes) (level : HunkLevel) (sc : SameChange)
+    (hsre : SlicesRespectEquality [a, b, b]) : tryMerge [a, b, b] level sc = some a := by
+  apply merge_cancels_to_side_partial [a, b, b] (by simp) level sc a _ hsre
+  simp only [trivialMerge]
+  by_cases h1 : a = b ∧ sc = .accept
+  · simp [h1]
+  · by_cases h2 : a = b
+    · simp [h2]
+    · simp [h1, h2]
+
+/-- `merge [b, b, a] = a` -/
+theorem merge_bba_partial (a b : Bytes) (level : HunkLevel) (sc : SameChange)
+    (hsre : SlicesRespectEquality [b, b, a]) : tryMerge [b, b, a] level sc = some a := by
+  apply merge_cancels_to_side_partial [b, b, a] (by simp) level sc a _ hsre
+  simp only [trivialMerge]
+  by_cases h1 : b = a ∧ sc = .accept
+  · simp [h1]
+  · simp [h1]
+
+/-- identical sides merge to that content under the same-change rule -/
+theorem merge_identical_sides_partial (a b : Bytes) (level : HunkLevel)
+    (hsre : SlicesRespectEquality [a, b, a]) : tryMerge [a, b, a] level .accept = some a := by
+  apply merge_cancels_to_side_partial [a, b, a] (by simp) level .accept a _ hsre
+  simp [trivialMerge]
+
 /-! ### non-vacuity -/
+example : SlicesRespectEquality [[97, 10, 98, 10], [97, 10], [97, 10]] := by decide
+example : trivialMerge [[97, 10, 98, 10], [97, 10], [97, 10]] .keep = some [97, 10, 98, 10] := by decide
+example : tryMerge [[97, 10, 98, 10], [97, 10], [97, 10]] .word .keep = some [97, 10, 98, 10] := by decide
 example : merge [[97, 10, 98, 10], [97, 10], [97, 10, 99, 10]] .line .keep
     = some [[97, 10, 98, 10], [97, 10], [97, 10, 99, 10]] := by decide
 example : tryMerge [[97, 10, 98, 10], [97, 10], [99, 10, 97, 10]] .line .keep
